@@ -29,11 +29,32 @@ def F(x):
     return Fraction(x)
 
 
+INEXACT = [0]  # how many values of the last model_doc were not floating-point numbers (the nearest one was delivered)
+
+
 def fl(x):
     """Fraction -> nearest float"""
     if isinstance(x, Fraction):
-        return x.numerator / x.denominator
+        v = x.numerator / x.denominator
+        if not (math.isinf(v) or Fraction(v) == x):
+            INEXACT[0] += 1
+        return v
     return x
+
+
+def _spread(weights):
+    """bits between the highest bit of the total and the lowest bit of any (dyadic) weight"""
+    tot = sum(weights, Fraction(0))
+    if tot <= 0:
+        return 0
+    hi = tot.numerator.bit_length() - tot.denominator.bit_length()
+    lo = hi
+    for w in weights:
+        n, d = w.numerator, w.denominator
+        if d & (d - 1):
+            return 10 ** 6  # not dyadic
+        lo = min(lo, (n & -n).bit_length() - d.bit_length())
+    return hi - lo
 
 
 def qval(q, rec):
@@ -54,6 +75,10 @@ def isnan(v):
 def model_doc(spec, items):
     """items: list of (record, weight).  Weights <= 0 or NaN are dropped (fill ignores them)."""
     live = [(r, F(w)) for r, w in items if isinstance(w, (int, float)) and w > 0]
+    # "exact" means: every sum the library forms is a floating-point number.  A history that spreads its weights over more
+    # than 52 bits (1 + 2**-30 scaled by 2**-20, then by 3 twice, next to weights of 4) leaves that regime: its sums are
+    # rounded, in an order the model does not follow.  INEXACT tells the caller to compare sums within the rounding bound.
+    INEXACT[0] = 1 if _spread([w for _, w in live if w != math.inf]) > 52 else 0
     return normalise({"type": spec["p"], "data": ev(spec, live, False), "version": VERSION})
 
 
